@@ -88,6 +88,27 @@ def small_and_cosmall(items, small=2, co=1):
     return res
 
 
+def whole_set_family(U, focus, tier, seed, pairs):
+    """requests over a large character set: every single character, the whole set, the whole set
+    minus one character; quick: single characters of sets > 120 and the removed characters are
+    the focus characters plus a window of the others that rotates with the seed"""
+    others = [c for c in U if c not in focus]
+    if tier == "quick":
+        k = (seed * 6) % max(1, len(others))
+        removed = list(focus) + (others + others)[k:k + 6]
+        singles = U if len(U) <= 120 else list(focus) + (others + others)[k:k + 32]
+    else:
+        removed = U if len(U) <= 120 else list(focus) + others[:40]
+        singles = U
+    reqs = [[c] for c in singles]
+    if pairs:
+        reqs += [list(c) for c in itertools.combinations(U, 2)]
+    reqs.append(list(U))
+    for c in removed:
+        reqs.append([x for x in U if x != c])
+    return reqs
+
+
 def char_universe(info):
     """mapped characters plus the variation selectors of the format 14 subtable"""
     return sorted(set(info.cm) | {sel for (_b, sel) in info.uvs})
@@ -229,8 +250,7 @@ class CorpusRequests(_Base):
             focus = self.focus[key]
             reqs = list(nonempty_subsets(focus))
             if len(U) > len(focus):
-                small = 2 if (key in self.reps and len(U) <= 120) else 1
-                reqs += small_and_cosmall(U, small=small, co=1)
+                reqs += whole_set_family(U, focus, tier, seed, pairs=(key in self.reps and len(U) <= 120))
             seen = set()
             for req in reqs:
                 t = tuple(req)
@@ -249,7 +269,7 @@ class CorpusRequests(_Base):
 
 class CorpusOptions(_Base):
     name = "corpus-options"
-    rule = ("the same corpus fonts x every single applicable option deviation x requests by unicodes=: focus subsets of size <= 2 and co-size <= 1, and the whole character set; same oracle; distinct = (font, request, options)")
+    rule = ("the same corpus fonts x every single applicable option deviation x requests by unicodes=: focus subsets of size <= 2, the whole focus alphabet (thorough: co-size 1 too) and the whole character set; same oracle; distinct = (font, request, options)")
     chunk = 12
     required_witnesses = ("options deviate from default", "desubroutinized a font with subroutines", "feature switched off by options", "retain_gids with emptied glyphs", "kern table kept")
 
@@ -262,7 +282,9 @@ class CorpusOptions(_Base):
             info = info_of(key)
             U = char_universe(info)
             focus = self.focus[key]
-            reqs = small_and_cosmall(focus)
+            reqs = list(nonempty_subsets(focus, 2)) + [list(focus)]
+            if tier == "thorough":
+                reqs = small_and_cosmall(focus)
             if len(U) > len(focus):
                 reqs.append(U)
             for optname, kw in K.option_sets(info, tier, seed, pairs=False)[1:]:
